@@ -82,13 +82,13 @@ Lemma gaps_cover pn spans : forall p L i c,
 Proof.
   induction spans as [|[s e] r IH]; intros p L i c H Hi Hc; simpl in H.
   - destruct H as [->|H]. lia. left.
-    apply all_digits_forall in H. eapply forallb_nth_error; eauto.
-    rewrite nth_error_slice by lia. replace (p + (i - p)) with i by lia. eauto.
+    apply all_digits_forall in H. apply (forallb_nth_error is_digit _ (i - p) c H).
+    rewrite nth_error_slice by lia. replace (p + (i - p)) with i by lia. exact Hc.
   - destruct H as [Hgap Hrest].
     destruct (Nat.lt_ge_cases i s) as [Hlt|Hge].
     + left. destruct Hgap as [->|Hd]. lia.
-      apply all_digits_forall in Hd. eapply forallb_nth_error; eauto.
-      rewrite nth_error_slice by lia. replace (p + (i - p)) with i by lia. eauto.
+      apply all_digits_forall in Hd. apply (forallb_nth_error is_digit _ (i - p) c Hd).
+      rewrite nth_error_slice by lia. replace (p + (i - p)) with i by lia. exact Hc.
     + destruct (Nat.lt_ge_cases i e) as [Hie|Hie].
       * right. exists s, e. simpl; auto.
       * destruct (IH e L i c Hrest) as [Hd|(s' & e' & Hin & Hr)]; auto. lia.
@@ -116,7 +116,7 @@ Proof.
   assert (Hi : i < List.length pn) by (apply nth_error_Some; congruence).
   destruct (gaps_cover pn _ 0 (List.length pn) i c El) as [Hd|(s & e & Hin & Hr)]; auto. lia.
   right. apply in_map_iff in Hin. destruct Hin as (m & Heq & Hm). inversion Heq; subst.
-  exists m. split; auto. apply (isort_in by_start) in Hm. auto.
+  exists m. split; auto. subst ms. apply (proj1 (isort_in by_start _ m)) in Hm. exact Hm.
 Qed.
 
 (** ** the matches are occurrences of configured components in the name *)
@@ -128,10 +128,10 @@ Qed.
 
 Lemma starts_with_nth p : forall s k c, starts_with p s = true -> nth_error p k = Some c -> nth_error s k = Some c.
 Proof.
-  induction p as [|a p IH]; intros [|b s] k c H Hk; simpl in *; try discriminate.
-  - destruct k; discriminate.
+  induction p as [|a p IH]; intros [|b s] k c H Hk; simpl in *; try discriminate;
+    try (destruct k; discriminate).
   - apply andb_true_iff in H. destruct H as [Hab H]. apply Ascii.eqb_eq in Hab. subst.
-    destruct k; simpl in *; auto. eapply IH; eauto.
+    destruct k; simpl in *; auto.
 Qed.
 
 Lemma find_all_from_sound p : forall fuel s pos st,
@@ -185,11 +185,11 @@ Qed.
 Definition no_blank (t : list ascii) : Prop := ~ In " "%char t.
 
 (* a match of a blank-free text in a masked string is a match in the original *)
-Lemma masked_match pn s t st : masked_of pn s -> no_blank t ->
+Lemma masked_match pn s t st : masked_of pn s -> no_blank t -> t <> [] ->
   starts_with t (skipn st s) = true -> starts_with t (skipn st pn) = true /\ st + List.length t <= List.length pn.
 Proof.
-  intros [Hl Hc] Hnb H. split.
-  - clear Hl. revert st H. induction t as [|a t IH]; intros st H; auto.
+  intros [Hl Hc] Hnb Hne H. split.
+  - clear Hl Hne. revert st H. induction t as [|a t IH]; intros st H; auto.
     assert (nth_error (skipn st s) 0 = Some a) as H0 by (eapply starts_with_nth; eauto; reflexivity).
     rewrite nth_error_skipn_add, Nat.add_0_r in H0.
     destruct (Hc _ _ H0) as [->|Hp]. { exfalso. apply Hnb. simpl; auto. }
@@ -200,12 +200,12 @@ Proof.
     assert (exists r', skipn st pn = a :: r' /\ skipn (S st) pn = r') as (r' & Hp1 & Hp2).
     { clear - Hp. revert st Hp. induction pn as [|x pn IHp]; intros [|st] Hp; simpl in *; try discriminate.
       - injection Hp as ->. eauto.
-      - apply IHp in Hp. destruct Hp as (r' & H1 & H2). exists r'. split; auto.
-        destruct pn; simpl in *; auto. discriminate. }
+      - apply IHp in Hp. destruct Hp as (r' & H1 & H2). exists r'. split; auto. }
     rewrite Hp1. simpl. rewrite Ascii.eqb_refl. simpl. rewrite <- Hp2. apply IH.
     + intro Hin. apply Hnb. simpl; auto.
     + rewrite Hr. auto.
-  - apply starts_with_length in H. rewrite skipn_length in H. lia.
+  - apply starts_with_length in H. rewrite skipn_length in H.
+    destruct t; [congruence | simpl in *; lia].
 Qed.
 
 Definition comp_match (pn : list ascii) (comps : list string) (m : mtch) : Prop :=
@@ -227,15 +227,17 @@ Lemma scan_matches pn comps : forall s acc,
   masked_of pn s -> Forall (comp_match pn comps) acc ->
   Forall (comp_match pn comps) (scan comps s acc).
 Proof.
-  assert (Hgen : forall all comps s acc, incl comps all ->
-    Forall (fun c => no_blank (unescape (chars c))) comps ->
-    masked_of pn s -> Forall (comp_match pn all) acc -> Forall (comp_match pn all) (scan comps s acc)).
-  { intros all. induction comps as [|c r IH]; intros s acc Hincl Hnb Hs Hacc; simpl; auto.
-    inversion Hnb; subst.
+  assert (Hgen : forall all cs s acc, incl cs all ->
+    Forall (fun c => no_blank (unescape (chars c))) cs ->
+    masked_of pn s -> Forall (comp_match pn all) acc -> Forall (comp_match pn all) (scan cs s acc)).
+  { intros all cs. induction cs as [|c r IH]; intros s acc Hincl Hnb Hs Hacc; simpl; auto.
+    apply Forall_cons_iff in Hnb. destruct Hnb as [Hnbc Hnb].
     assert (Hst : Forall (fun st => starts_with (unescape (chars c)) (skipn st pn) = true /\
                                     st + List.length (unescape (chars c)) <= List.length pn)
                          (find_all (unescape (chars c)) s)).
-    { apply Forall_forall. intros st Hin. apply find_all_sound in Hin. eapply masked_match; eauto. }
+    { apply Forall_forall. intros st Hin.
+      assert (unescape (chars c) <> []) as Hne by (intro E; rewrite E in Hin; destruct Hin).
+      apply find_all_sound in Hin. eapply masked_match; eauto. }
     apply IH.
     - intros x Hx. apply Hincl. simpl; auto.
     - auto.
@@ -275,21 +277,25 @@ Qed.
 Lemma forallb_eqb_repeat c n : forallb (Ascii.eqb c) (repeat_char c n) = true.
 Proof. induction n; simpl; auto. rewrite Ascii.eqb_refl. auto. Qed.
 
-Lemma count_trailing_app c body n :
-  (forall b, last body b <> c \/ body = []) ->
-  count_trailing_l c (body ++ repeat_char c n) = n.
+Lemma count_trailing_repeat c n : count_trailing_l c (repeat_char c n) = n.
 Proof.
-  intro Hlast. induction body as [|a body IH]; simpl.
-  - destruct n; simpl; auto. rewrite Ascii.eqb_refl, forallb_eqb_repeat. simpl.
-    rewrite repeat_char_length. auto.
-  - assert (forallb (Ascii.eqb c) (a :: body ++ repeat_char c n) = false) as Hf.
-    { clear IH. destruct (Hlast a) as [Hl|Hl]; [|discriminate].
-      apply not_true_is_false. intro Ht. rewrite forallb_forall in Ht.
-      assert (In (last (a :: body) a) (a :: body ++ repeat_char c n)) as Hin.
-      { change (a :: body ++ repeat_char c n) with ((a :: body) ++ repeat_char c n).
-        apply in_or_app. left. clear. revert a. induction body as [|b body IHb]; intro a; simpl; auto.
-        right. apply IHb. }
-      apply Ht in Hin. apply Ascii.eqb_eq in Hin. congruence. }
-    simpl in Hf. rewrite Hf. apply IH. intro b. destruct body as [|a' body']; auto.
-    left. specialize (Hlast b). destruct Hlast as [Hl|Hl]; [|discriminate]. exact Hl.
+  destruct n; simpl; auto. rewrite Ascii.eqb_refl, forallb_eqb_repeat. simpl.
+  rewrite repeat_char_length. auto.
+Qed.
+
+Lemma forallb_app_false {X} (p : X -> bool) l1 x l2 : p x = false -> forallb p (l1 ++ x :: l2)%list = false.
+Proof.
+  intro H. rewrite forallb_app. simpl. rewrite H. simpl. apply andb_false_r.
+Qed.
+
+Lemma count_trailing_app c pre x n : x <> c ->
+  count_trailing_l c (pre ++ x :: repeat_char c n)%list = n.
+Proof.
+  intro Hx. assert (Ascii.eqb c x = false) as Hf.
+  { apply not_true_is_false. intro E. apply Ascii.eqb_eq in E. congruence. }
+  induction pre as [|a pre IH].
+  - cbn [app count_trailing_l]. cbn [forallb]. rewrite Hf. cbn [andb]. apply count_trailing_repeat.
+  - cbn [app count_trailing_l].
+    change (a :: pre ++ x :: repeat_char c n)%list with ((a :: pre) ++ x :: repeat_char c n)%list.
+    rewrite (forallb_app_false (Ascii.eqb c) (a :: pre) x _ Hf). exact IH.
 Qed.
